@@ -5,7 +5,7 @@ from vlib import Result, log
 from arena import Arena
 import c10
 
-THEOREMS = ["C07_closed", "C07_operation_refs", "C07_minimal", "C07_selection_monotone", "C07_nonvacuous"]
+THEOREMS = ["C07_closed", "C07_operation_refs", "C07_minimal", "C07_selection_monotone", "C07_fuel_suffices", "C07_nonvacuous"]
 TARGETS = ["Props/C07.v", "Extract/C07.v"]
 
 
@@ -224,7 +224,7 @@ def main(tier, seed, replay=None):
     res = Result("C07", tier, seed)
     vlib.build_repo()
     vlib.build_vtool()
-    coq_ok, out = vlib.standard_coq_obligations(res, TARGETS, THEOREMS, expect_closed=4)
+    coq_ok, out = vlib.standard_coq_obligations(res, TARGETS, THEOREMS, expect_closed=5)
     exe = vlib.ocaml_build("c07")
     res.oblige("extracted model (collect, seeds, reach) builds", exe is not None)
     rng = random.Random(seed * 733 + 7)
